@@ -164,7 +164,13 @@ def replace_ref(text, oldvalue, newvalue="n/a"):
     # p1/p2 contain the parentheses directly surrounding the tag
     # All four groups can have spaces.
     pattern = r'(?P<c1>[\s,]*)(?P<p1>[(\s]*)' + oldvalue + r'(?P<p2>[\s)]*)(?P<c2>[\s,]*)'
-    return re.sub(pattern, _remover, text)
+    # One occurrence at a time: a column may be referenced more than once, and the delimiters that two neighbouring
+    # references share have to be looked at again after the first of them is gone.
+    while True:
+        new_text = re.sub(pattern, _remover, text, count=1)
+        if new_text == text:
+            return text
+        text = new_text
 
 
 def _handle_curly_braces_refs(df, refs, column_names):
